@@ -98,14 +98,16 @@ def inv(m):
     # check that matrix is square:
     if _USE_NUMPY_LINALG_INV:
         invm = np.linalg.inv(np.array(m).astype(_MAX_LINALG_TYPE))
-        # detect singularity:
-        if not np.all(np.isfinite(invm)):
+        # detect singularity (and non-finite input):
+        if not (np.all(np.isfinite(invm)) and np.all(np.isfinite(m))):
             raise np.linalg.LinAlgError('Singular matrix.')
         return invm
 
     m = np.array(m, dtype=np.longdouble)
     if len(m.shape) != 2 or m.shape[0] != m.shape[1]:
         raise np.linalg.LinAlgError("Input matrix must be a square matrix.")
+    if not np.all(np.isfinite(m)):
+        raise np.linalg.LinAlgError("Input matrix must be finite.")
     order = m.shape[0]
 
     # create permutation matrices:
